@@ -110,6 +110,23 @@ def _run_grid(cfg) -> Dict[str, Any]:
     walker = B.BatchProcessor(None)
     prev = None
     seen_sig = set()
+    # the other decision entry points (deprecated wrappers, BatchProcessor methods)
+    entry = bool(cfg.get("entry"))
+    import warnings
+
+    legacy = [("batching._supports_batch_processing", getattr(B, "_supports_batch_processing", None))]
+    if entry:
+        import importlib
+
+        SC = importlib.import_module("chuk_mcp.transports.stdio.stdio_client")  # the package also exports a function of that name
+        legacy.append(("stdio_client._supports_batch_processing", getattr(SC, "_supports_batch_processing", None)))
+    legacy = [(n, f) for n, f in legacy if callable(f)]
+    cnt["legacy_wrapper_calls"] = 0
+    called: List[Any] = []
+
+    def handler(item):
+        called.append(item)
+        return None
 
     def bad(cls, msg, **extra):
         key = (cls, tuple(sorted(extra.items())))
@@ -171,6 +188,34 @@ def _run_grid(cfg) -> Dict[str, Any]:
                         f"supports_batching({v!r}) = {s}", via=nm)
             if B.should_reject_batch(v, []) is not (not s) or B.should_reject_batch(v, {}) is not False:
                 bad("should-reject-batch-disagrees", f"should_reject_batch({v!r}, ...) inconsistent with supports_batching = {s}")
+            if entry:
+                cnt["entry_point_checks"] = cnt.get("entry_point_checks", 0) + 1
+                with warnings.catch_warnings():
+                    warnings.simplefilter("ignore")
+                    for nm, f in legacy:
+                        cnt["legacy_wrapper_calls"] += 1
+                        try:
+                            r = f(v)
+                        except BaseException as e:  # noqa: BLE001
+                            r = repr(e)
+                        if r is not s:
+                            bad("entry-point-disagrees-with-function", f"{nm}({v!r}) = {r!r}, supports_batching = {s}", via=nm)
+                for nm, p in (("constructor", fresh), ("update-from-opposite-mode", opposite)):
+                    if p.can_process_batch([]) is not s or p.can_process_batch([{"x": 1}]) is not s or p.can_process_batch({"x": 1}) is not True:
+                        bad("entry-point-disagrees-with-function",
+                            f"BatchProcessor({nm}).can_process_batch disagrees with supports_batching({v!r}) = {s}", via="can_process_batch")
+                    del called[:]
+                    out1 = p.process_message_data([{"jsonrpc": "2.0", "method": "n"}], handler)
+                    routed = len(called)
+                    out0 = p.process_message_data([], handler)
+                    single = p.process_message_data({"jsonrpc": "2.0", "method": "n"}, handler)
+                    ok = (routed == 1 and out1 is None and out0 is None) if s else \
+                        (routed == 0 and isinstance(out1, dict) and out1.get("error", {}).get("code") == -32600
+                         and isinstance(out0, dict) and out0.get("error", {}).get("code") == -32600)
+                    if not ok or single is not None or len(called) != routed + 1:
+                        bad("entry-point-disagrees-with-function",
+                            f"BatchProcessor({nm}).process_message_data at {v!r}: handler calls {routed}, batch -> {str(out1)[:80]}, "
+                            f"[] -> {str(out0)[:60]}, single routed {len(called) - routed}; supports_batching = {s}", via="process_message_data")
     if cnt["accepting"] and cnt["rejecting"]:
         out = "year-with-switch"
     else:
@@ -951,9 +996,101 @@ def _run_switch(cfg) -> Dict[str, Any]:
         outs.add("switched" if switched else "not-switched")
     return {"outcome": "switch:" + "+".join(sorted(outs)), "violations": viol[:12], "counters": cnt, "v0": v0, "v": v}
 
+# ---------------------------------------------------------------------------
+# (g) traffic that merely MENTIONS a protocol version must not change the negotiated one
+# ---------------------------------------------------------------------------
+def _distractors(w: str) -> List[Any]:
+    """Single lines that carry a version string w without being this client's handshake."""
+    init_result = {"protocolVersion": w, "capabilities": {}, "serverInfo": {"name": "srv", "version": "1"}}
+    return [
+        ("late-initialize-result", {**J, "id": "abandoned-init", "result": init_result}),
+        ("bare-version-result", {**J, "id": 4242, "result": {"protocolVersion": w}}),
+        ("notification-with-version", {**J, "method": "notifications/message", "params": {"protocolVersion": w, "level": "info"}}),
+        ("error-with-version", {**J, "id": "abandoned-init", "error": {"code": -32602, "message": f"Unsupported protocol version {w}",
+                                                                         "data": {"protocolVersion": w, "supported": [w]}}}),
+        ("server-request-with-version", {**J, "id": "srv-1", "method": "initialize", "params": {"protocolVersion": w}}),
+        ("nested-version-result", {**J, "id": 4243, "result": {"info": {"protocolVersion": w}, "protocol_version": w}}),
+    ]
+
+
+N_DISTRACTORS = 6
+
+
+def _run_mention(cfg) -> Dict[str, Any]:
+    from chuk_mcp.protocol.messages.initialize.send_messages import send_initialize_with_client_tracking
+
+    how = cfg["how"]  # "set" | "handshake" | "none"
+    v = None if how == "none" else (VERSIONS[cfg["v"]] if how == "set" else SUPPORTED_PINNED[cfg["v"]])
+    w = VERSIONS[cfg["w"]]
+    names = [_distractors(w)[i][0] for i in cfg["lines"]]
+    lines = [_distractors(w)[i][1] for i in cfg["lines"]]
+    c = _Client()
+    log: Dict[str, Any] = {}
+
+    def on_stdin(data: bytes):
+        for raw in data.split(b"\n"):
+            if not raw.strip():
+                continue
+            msg = json.loads(raw)
+            if msg.get("method") == "initialize":
+                c.proc.stdout.feed((json.dumps({**J, "id": msg["id"], "result": {
+                    "protocolVersion": v, "capabilities": {}, "serverInfo": {"name": "srv", "version": "1"}}}) + "\n").encode())
+
+    if how == "handshake":
+        c.proc.on_stdin = on_stdin
+
+    async def body(client):
+        read, write = client.get_streams()
+        if how == "set":
+            client.set_protocol_version(v)
+        elif how == "handshake":
+            await send_initialize_with_client_tracking(read, write, client, timeout=5.0, preferred_version=v)
+        await c.q.settle()
+        c.drain(client)
+        for ln in lines:
+            c.proc.stdout.feed((json.dumps(ln) + "\n").encode())
+            await c.q.settle()
+        log["distractor_io"] = c.drain(client)
+        log["pv"] = client.get_protocol_version()
+        log["be"] = client.is_batching_enabled()
+        batch = line_for(["b", cfg["batch"]], 5)
+        c.proc.stdout.feed((json.dumps(batch) + "\n").encode())
+        await c.q.settle()
+        log["batch"] = batch
+        log["got"] = c.drain(client)
+
+    status, val, errors = c.run(body)
+    where = (f"version {v!r} negotiated via {how}; then single line(s) {names} mentioning {w!r}; then batch [{cfg['batch']}]")
+    viol: List[dict] = []
+    cnt: Dict[str, int] = {"sequences": 1, "steps": 1 + len(lines), "version-mention-scenarios": 1}
+    side = ("same-side" if ref_accepts(v) == ref_accepts(w) else "other-side")
+    if status != "ok":
+        if isinstance(val, core.HarnessError):
+            raise val
+        viol.append({"sig": {"class": "did-not-finish", "scenario": "version-mentioned-in-traffic", "status": status},
+                     "msg": f"{status}: {val!r}; {where}"})
+        return {"outcome": "mention:" + status, "violations": viol, "counters": cnt}
+    if log["pv"] != v or log["be"] is not ref_accepts(v):
+        viol.append({"sig": {"class": "client-state-differs-from-model", "scenario": "version-mentioned-in-traffic",
+                             "line": names[-1], "mentioned": side},
+                     "msg": f"get_protocol_version()={log['pv']!r} is_batching_enabled()={log['be']} after the line(s); model: still {v!r}; {where}"})
+    if log["distractor_io"]["stdin"]:
+        viol.append({"sig": {"class": "single-message-answered-as-batch", "scenario": "version-mentioned-in-traffic"},
+                     "msg": f"stdin traffic {log['distractor_io']['stdin'][:1]} for single lines; {where}"})
+    sub: List[dict] = []
+    judge_line(log["batch"], v, log["got"], where, sub, cnt)
+    for x in sub:
+        x["sig"] = {**x["sig"], "scenario": "version-mentioned-in-traffic", "line": names[-1], "mentioned": side}
+    viol.extend(sub)
+    if errors:
+        viol.append({"sig": {"class": "loop-error", "scenario": "version-mentioned-in-traffic"}, "msg": f"{errors[:2]}; {where}"})
+    return {"outcome": f"mention:{'accepting' if ref_accepts(v) else 'rejecting'}:{side}", "violations": viol[:12], "counters": cnt}
+
 
 def run_one(ctl: explorer.Ctl, cfg: Dict[str, Any]) -> Dict[str, Any]:
     part = cfg["part"]
+    if part == "mention":
+        return _run_mention(cfg)
     if part == "inbatch":
         return _run_inbatch_handshake(cfg)
     if part == "switch":
@@ -1004,7 +1141,8 @@ def run(tier: str, only=None) -> core.Result:
         return res
 
     # (a)
-    cfgs = [{"part": "grid", "year": y} for y in range(YEARS[0], YEARS[1] + 1)] + [{"part": "specials"}]
+    entry_years = set(range(YEARS[0], YEARS[1] + 1)) if tier == "thorough" else ({2024, 2025, 2026} | set(range(YEARS[0], YEARS[1] + 1, 10)))
+    cfgs = [{"part": "grid", "year": y, "entry": y in entry_years} for y in range(YEARS[0], YEARS[1] + 1)] + [{"part": "specials"}]
     out = explorer.explore(RUN, cfgs)
     sched.absorb(res, "a-decision-function-date-grid", RUN, out, cfgs)
     samples = _pick("a-decision-function-date-grid", cfgs)
@@ -1036,7 +1174,7 @@ def run(tier: str, only=None) -> core.Result:
     sched.absorb(res, name, RUN, out, cfgs)
     samples += _pick(name, cfgs)
     sched.debug_pass(res, name, RUN, cfgs, every=(8 if tier == "quick" else 160))
-    sched.debug_pass(res, "a-decision-function-date-grid", RUN, [{"part": "grid", "year": 2025}, {"part": "specials"}])
+    sched.debug_pass(res, "a-decision-function-date-grid", RUN, [{"part": "grid", "year": 2025, "entry": True}, {"part": "specials"}])
 
     # (c) handshake and invalid forms
     cfgs = [{"part": "handshake", "preferred": p, "answer": a} for p in range(3) for a in range(3)]
@@ -1076,6 +1214,21 @@ def run(tier: str, only=None) -> core.Result:
     sched.absorb(res, "f-handshake-answered-inside-a-batch", RUN, out, cfgs)
     samples += _pick("f-handshake-answered-inside-a-batch", cfgs)
     sched.debug_pass(res, "f-handshake-answered-inside-a-batch", RUN, cfgs, every=3)
+    mcfgs = []
+    for how, nv in (("set", len(VERSIONS)), ("handshake", len(SUPPORTED_PINNED)), ("none", 1)):
+        for vi in range(nv):
+            for wi in range(len(VERSIONS)):
+                for d in range(N_DISTRACTORS):
+                    for b in ("RN", "R", ""):
+                        mcfgs.append({"part": "mention", "how": how, "v": vi, "w": wi, "lines": [d], "batch": b})
+                for d1 in range(N_DISTRACTORS):
+                    for d2 in range(N_DISTRACTORS):
+                        if d1 != d2:
+                            mcfgs.append({"part": "mention", "how": how, "v": vi, "w": wi, "lines": [d1, d2], "batch": "RN"})
+    out = explorer.explore(RUN, mcfgs)
+    sched.absorb(res, "g-version-mentioned-in-traffic", RUN, out, mcfgs)
+    samples += _pick("g-version-mentioned-in-traffic", mcfgs)
+    sched.debug_pass(res, "g-version-mentioned-in-traffic", RUN, mcfgs, every=11)
     ncase = len(_switch_cases())
     cfgs = [{"part": "switch", "v0": a, "v": b, "lo": lo, "hi": min(ncase, lo + 20)}
             for a in range(len(SWITCH_V0)) for b in range(len(VERSIONS)) for lo in range(0, ncase, 20)]
@@ -1112,11 +1265,14 @@ def run(tier: str, only=None) -> core.Result:
     cov["date_strings_calendar"] = cnt.get("calendar_dates", 0)
     cov["date_strings_non_calendar"] = cnt.get("non_calendar", 0)
     cov["compare_defined_on"] = cnt.get("compare_defined", 0)
+    cov["legacy_wrapper_calls"] = cnt.get("legacy_wrapper_calls", 0)
+    cov["date_strings_through_all_entry_points"] = cnt.get("entry_point_checks", 0)
     cov["evaluations"] = cnt.get("strings", 0) + cnt.get("sequences", 0)
     cov["empty_batch_observed"] = {k: v for k, v in cnt.items() if k.startswith("empty-batch/")}
     cov["single_messages"] = {k: v for k, v in cnt.items() if k.startswith("single-")}
     cov["reentered_bare_client_recorded"] = {k: v for k, v in cnt.items() if k.startswith("reentered-bare-client/")}
     cov["debug_logging_reruns"] = dbg_exec
+    cov["version_mention_scenarios"] = cnt.get("version-mention-scenarios", 0)
     cov["congested_scenarios"] = cnt.get("congested-scenarios", 0)
     cov["handshakes_answered_inside_a_batch"] = cnt.get("inbatch-handshakes", 0)
     cov["mid_batch_version_switches"] = cnt.get("mid-batch-switches", 0)
@@ -1125,7 +1281,10 @@ def run(tier: str, only=None) -> core.Result:
     cov["depth"] = depth
     cov["exhaustive"] = True
     cov["rule"] = (
-        f"(a) every string dddd-dd-dd with year {YEARS[0]}..{YEARS[1]} (incl. non-calendar month/day 00..99), one block per year. "
+        f"(a) every string dddd-dd-dd with year {YEARS[0]}..{YEARS[1]} (incl. non-calendar month/day 00..99), one block per year; the other decision entry points "
+        "(both deprecated _supports_batch_processing wrappers, BatchProcessor.can_process_batch / process_message_data after construction and after "
+        "update_protocol_version) must agree with the function on "
+        + ("every string" if tier == "thorough" else "every string of the years 2024-2026 and of every 10th year (all years in thorough)") + ". "
         f"(b) operations = set_protocol_version(v) for v in {VERSIONS}; single message (response, notification); batch line of "
         "0..4 members each in {valid response R, valid notification N, invalid item X (42 / {jsonrpc} / id-only / string by position)}. "
         f"Every sequence of length {depth} over the alphabet with batches of <=2 members (20 operations), and "
@@ -1145,7 +1304,10 @@ def run(tier: str, only=None) -> core.Result:
         "position) - every notification member must reach the notification stream, every member behind the response the read stream, no error line, and "
         "the next line is judged by the recorded version; a consumer calls set_protocol_version(v) right after receiving member #k of a batch "
         "(every batch of 2-4 members over {R,N,X}, every k < number of valid members, 3 initial x 5 new versions) - the decision belongs to the LINE at "
-        "arrival, the following line to the new version. A slice of every part is re-run with library logging at DEBUG. distinct_nontrivial = distinct observation digests of the blocks"
+        "arrival, the following line to the new version. (g) after set_protocol_version(v) / a real handshake at v / nothing, one or two single lines that merely mention a version w "
+        "(late or unsolicited initialize result, bare {protocolVersion} result, notification, error response, server request, nested member; every "
+        "v x w x line, ordered pairs of lines) and then a batch: the negotiated version and the decision must still follow v. "
+        "A slice of every part is re-run with library logging at DEBUG. distinct_nontrivial = distinct observation digests of the blocks"
     )
     res.assumptions = [
         "the scripted process implements the subset of anyio.abc.Process the transport uses",
